@@ -58,6 +58,12 @@ def conflicting(a, b):
     return (pa is not None and pa == pb) or (ca is not None and ca == cb) or a["op"] == "delete" or b["op"] == "delete"
 
 
+TWO_INST_START = [{"op": "store", "pid": "p", "c": X}, {"op": "store", "pid": "r", "c": X}, {"op": "store", "pid": "t", "c": X}]
+TWO_INST_CALLS = [{"op": "store", "pid": "q", "c": X}, {"op": "tag", "pid": "q", "cid": {"of": X}}, {"op": "store", "pid": "s", "c": X},
+                  {"op": "tag", "pid": "s", "cid": {"of": X}}, {"op": "delete", "pid": "p"}, {"op": "delete", "pid": "r"}]
+TWO_INST_PAIRS = [(0, 2), (0, 3), (1, 3), (0, 4), (1, 4), (4, 5)]
+
+
 def same_ident(a, b):
     """The two calls name the same pid or the same content (they contend for the same lock entry)."""
     pa, pb = a.get("pid"), b.get("pid")
@@ -74,6 +80,8 @@ def handover_preemptions(a, k):
 def case_cost(case):
     if case.get("mode") == "handover":
         return 15
+    if case.get("mode") == "cd":
+        return 60 if case.get("max_preempt", 2) >= 3 else 12
 
     return 40 if case.get("max_preempt", 1) >= 2 else 1
 
@@ -135,6 +143,22 @@ def enumerate_cases(tier):
                         continue
                     yield dict(BASE, start_name=sname, start=STARTS[sname], calls=calls3, mode="handover", ho_a=list(ho_a),
                                ho_k=list(ho_k), family="hand-over")
+    # 'two instances, one shared reference list': the two calls go through TWO FileHashStore objects opened on the same
+    # directory (two workers that each called the factory; no in-memory lock is shared), name different pids and add to /
+    # remove from the SAME cid's reference list, which stays non-empty throughout.  The only exclusion between them is the
+    # file lock the store takes around every read-modify-write of the list ("this process needs to complete before any
+    # others read/modify the content of refs file"); the pinned tree linearizes every explored schedule of these programs.
+    for a, b in TWO_INST_PAIRS:
+        yield dict(BASE, start_name="p=X,r=X,t=X", start=TWO_INST_START, calls=[TWO_INST_CALLS[a], TWO_INST_CALLS[b]], mode="cd",
+                   max_preempt=2 if tier == "quick" else 3, instances=[0, 1], family="two-instances-shared-list")
+    if tier == "thorough":
+        # conflict-directed enumeration: every schedule with <=3 preemptions up to commutation of independent steps
+        for sname in STARTS:
+            for a, b in itertools.combinations_with_replacement(range(len(MENU)), 2):
+                if conflicting(MENU[a], MENU[b]):
+                    for first in (0, 1):
+                        yield dict(BASE, start_name=sname, start=STARTS[sname], calls=[MENU[a], MENU[b]], mode="cd", max_preempt=3,
+                                   firsts=[first], family="conflict-directed")
     # quick tier: the six most contended pairs already get every schedule with <=2 preemptions
     DEEP = {("p=X", 2, 6), ("r=X", 4, 6), ("empty", 0, 1), ("p=X,q=X", 6, 7), ("p=X", 5, 6), ("p=X", 0, 6)}
     for sname in STARTS:
@@ -227,6 +251,25 @@ def run_case(case, ctx):
             judge(ctx, world, case, calls, [0, 1, 2], [list(x) for x in pre], ex)
             ctx.nontrivial([case["start_name"], [conc.op_pattern(c, world) for c in calls], [c.get("pid") for c in calls], a, ex.outcomes])
         ctx.classify("holder-second-third-programs")
+    elif case["mode"] == "cd":
+        n = 0
+        stats = {}
+        for order, pre, ex, stats in conc.conflict_directed_schedules(world, calls, max_preempt=case.get("max_preempt", 2),
+                                                                      firsts=tuple(case.get("firsts", (0, 1))),
+                                                                      instances=case.get("instances")):
+            ctx.count()
+            n += 1
+            judge(ctx, world, case, calls, order, pre, ex)
+            if pre:
+                ctx.nontrivial([case["start_name"], case.get("family"), [conc.op_pattern(c, world) for c in calls],
+                                [c.get("pid") for c in calls], order, pre, ex.outcomes])
+        ctx.classify(case.get("family", "conflict-directed") + "-programs")
+        ctx.classify(case.get("family", "conflict-directed") + "-schedules", n)
+        ctx.classify("conflict-directed: positions pruned as independent", stats.get("pruned", 0))
+        if stats.get("mispredicted"):
+            ctx.classify("conflict-directed: pending operation differed from the prediction", stats["mispredicted"])
+        ctx.sample({"family": case.get("family"), "start": case["start_name"], "program": [conc.op_pattern(c, world) + ":" + str(c.get("pid")) for c in calls],
+                    "max_preemptions": case.get("max_preempt", 2), "schedules_explored": n, "pruned_positions": stats.get("pruned", 0)}, force=n > 100)
     elif case["mode"] == "handover":
         for a in case["ho_a"]:
             waited_any = False
